@@ -3,6 +3,7 @@ package agreesim
 import (
 	"crypto/sha256"
 	"fmt"
+	"os"
 	"path/filepath"
 	"sort"
 	"strings"
@@ -145,6 +146,9 @@ func (s *Sim) compareTwin() {
 	in.outbox, in.ensures, in.disconns = nil, nil, 0
 	in.mu.Unlock()
 	te := effectsOf(out, ens, disc)
+	if os.Getenv("VERIF_DEBUG_TWIN") != "" {
+		s.log.Add("  twin effects (first=%v stimulated=%v): %v", tw.first, tw.stimulated, te)
+	}
 	oe := s.origEffects[tw.of.id]
 	delete(s.origEffects, tw.of.id)
 	if tw.first {
